@@ -3,6 +3,7 @@ package sim
 import (
 	"context"
 	"fmt"
+	corev1 "k8s.io/api/core/v1"
 	"math/rand"
 	"strconv"
 	"strings"
@@ -24,17 +25,23 @@ import (
 
 // FaultPlan injects faults into controller actors, counted from the start of the release (after setup).
 type FaultPlan struct {
-	CrashAfterWrite int    `json:"crashAfterWrite,omitempty"` // k-th controller write after release start (1-based); 0 = none
-	FailCall        int    `json:"failCall,omitempty"`        // k-th controller call after release start (1-based); 0 = none
-	FailWriteCall   int    `json:"failWriteCall,omitempty"`   // k-th controller write call (create/update/patch/delete, incl. no-ops) after release start; 0 = none
-	FailCommit      int    `json:"failCommit,omitempty"`      // the k-th controller write that would change the store (no-ops not counted) fails instead / loses its response; 0 = none
-	FailKind        string `json:"failKind,omitempty"`        // error | timeout | conflict | lost
-	Random          int    `json:"random,omitempty"`          // number of additional random faults
-	RandomCrash     int    `json:"randomCrash,omitempty"`
+	CrashAfterWrite int `json:"crashAfterWrite,omitempty"` // k-th controller write after release start (1-based); 0 = none
+	FailCall        int `json:"failCall,omitempty"`        // k-th controller call after release start (1-based); 0 = none
+	FailWriteCall   int `json:"failWriteCall,omitempty"`   // k-th controller write call (create/update/patch/delete, incl. no-ops) after release start; 0 = none
+	FailCommit      int `json:"failCommit,omitempty"`      // the k-th controller write that would change the store (no-ops not counted) fails instead / loses its response; 0 = none
+	// counted from the first exit action of the user (delete / disable / rollback / v3 / delete-workload / delete-tr):
+	FailCallAfterExit   int `json:"failCallAfterExit,omitempty"`   // the k-th controller call (reads included) of the teardown fails
+	CrashAfterExitWrite int `json:"crashAfterExitWrite,omitempty"` // the controller crashes right after its k-th write of the teardown
+	// FailSiteAfterExit "actor verb Kind" (e.g. "br-ctrl get CloneSet"): the FailSiteNth-th call of that shape after the exit fails
+	FailSiteAfterExit string `json:"failSiteAfterExit,omitempty"`
+	FailSiteNth       int    `json:"failSiteNth,omitempty"`
+	FailKind          string `json:"failKind,omitempty"` // error | timeout | conflict | lost
+	Random            int    `json:"random,omitempty"`   // number of additional random faults
+	RandomCrash       int    `json:"randomCrash,omitempty"`
 }
 
 func (f *FaultPlan) Empty() bool {
-	return f == nil || (f.CrashAfterWrite == 0 && f.FailCall == 0 && f.FailWriteCall == 0 && f.FailCommit == 0 && f.Random == 0 && f.RandomCrash == 0)
+	return f == nil || (f.CrashAfterWrite == 0 && f.FailCall == 0 && f.FailWriteCall == 0 && f.FailCommit == 0 && f.Random == 0 && f.RandomCrash == 0 && f.FailCallAfterExit == 0 && f.CrashAfterExitWrite == 0 && f.FailSiteAfterExit == "")
 }
 
 func isControllerActor(a string) bool {
@@ -60,6 +67,11 @@ type Run struct {
 	ctrlCalls      int
 	ctrlWriteCalls int
 	ctrlCommits    int
+	exitSeen       bool
+	exitCalls      int
+	exitWrites     int
+	exitSiteHits   int
+	brTearing      bool
 	armed          bool
 	randFaultAt    map[int]string
 	randCrashAt    map[int]bool
@@ -104,12 +116,26 @@ func newRun(s *Scenario, repoDir string, faults *FaultPlan, uidPrefix string) (*
 	if s.PartitionLimit > 0 {
 		validating.PartitionReplicasLimitWithTraffic = s.PartitionLimit
 	}
-	w, err := NewWorld(Options{RepoDir: repoDir, GraceSeconds: s.Grace, UIDPrefix: uidPrefix})
+	w, err := NewWorld(Options{RepoDir: repoDir, GraceSeconds: s.Grace, UIDPrefix: uidPrefix, FaithfulRequeue: s.Grace > 0 && s.SpecGraceZero})
 	if err != nil {
 		return nil, err
 	}
+	if s.UnreadyEvery > 0 {
+		n := 0
+		w.Env.NeverReady = func(p *corev1.Pod) bool {
+			if len(p.Spec.Containers) == 0 || p.Spec.Containers[0].Image == "img:v1" {
+				return false
+			}
+			n++
+			return n%s.UnreadyEvery == 0
+		}
+	}
 	r := &Run{S: s, W: w, Rng: rand.New(rand.NewSource(s.Seed)), Faults: faults, mode: "release", target: "v1", envIdleAt: -1, gcIdleAt: -1}
 	r.Budget = 60 * (len(s.Steps) + 5) * (int(s.Replicas) + 6)
+	if s.UnreadyEvery > 0 {
+		// a degraded release may legitimately never finish: what matters is what is reported on the way
+		r.Budget /= 4
+	}
 	return r, nil
 }
 
@@ -153,6 +179,20 @@ func (r *Run) installHooks() {
 		if r.Faults != nil && isWrite && r.Faults.FailWriteCall == r.ctrlWriteCalls {
 			kind = r.Faults.FailKind
 		}
+		if r.exitSeen {
+			r.exitCalls++
+			if r.Faults != nil && r.Faults.FailCallAfterExit == r.exitCalls {
+				kind = r.Faults.FailKind
+			}
+			// (the BatchRelease controller's part of a teardown is its Finalizing phase / the deletion of its object: its
+			// call shapes are counted from there, so that a small n reaches the calls inside Finalize)
+			if r.Faults != nil && r.Faults.FailSiteAfterExit != "" && r.Faults.FailSiteAfterExit == c.Actor+" "+c.Verb+" "+c.Key.Kind && (c.Actor != "br-ctrl" || r.brTearingDown()) {
+				r.exitSiteHits++
+				if r.exitSiteHits == r.Faults.FailSiteNth {
+					kind = r.Faults.FailKind
+				}
+			}
+		}
 		if k, ok := r.randFaultAt[r.ctrlCalls]; ok {
 			kind = k
 		}
@@ -185,6 +225,10 @@ func (r *Run) installHooks() {
 		return nil
 	}
 	st.OnWrite = append(st.OnWrite, func(w *simapi.Write, v *simapi.View) {
+		if w.Key.Kind == "BatchRelease" && w.Key.NS == r.S.NS && w.Key.Name == r.S.RolloutName() {
+			br := w.After
+			r.brTearing = br != nil && (simapi.Deleting(br) || simapi.Str(br, "status.phase") == "Finalizing" || simapi.Path(br, "spec.releasePlan.batchPartition") == nil)
+		}
 		if !r.RecordCallClasses || (w.Key.Kind != "Rollout" && w.Key.Kind != "BatchRelease") {
 			return
 		}
@@ -239,7 +283,10 @@ func (r *Run) installHooks() {
 			return
 		}
 		r.ctrlWrites++
-		if (r.Faults != nil && r.Faults.CrashAfterWrite == r.ctrlWrites) || r.randCrashAt[r.ctrlWrites] {
+		if r.exitSeen {
+			r.exitWrites++
+		}
+		if (r.Faults != nil && r.Faults.CrashAfterWrite == r.ctrlWrites) || r.randCrashAt[r.ctrlWrites] || (r.exitSeen && r.Faults != nil && r.Faults.CrashAfterExitWrite == r.exitWrites) {
 			r.InjectedFaults = append(r.InjectedFaults, fmt.Sprintf("crash@write%d:%s %s %s", r.ctrlWrites, w.Actor, w.Verb, w.Key))
 			panic(simapi.CrashSignal{AfterWrite: w.Seq})
 		}
@@ -315,7 +362,7 @@ func (r *Run) step() bool {
 			r.trace("RESTART")
 		}
 	case "env":
-		a := w.Env.Step(r.Rng.Intn(6))
+		a := w.Env.Step(r.Rng.Intn(12))
 		if a == "" {
 			r.envIdleAt = w.Store.Writes()
 		}
@@ -344,8 +391,15 @@ func (r *Run) settle(max int) {
 	}
 }
 
+func (r *Run) brTearingDown() bool { return r.brTearing }
+
 // waitTimers sleeps until the nearest pending timer is due (bounded); false if there is none worth waiting for.
 func (r *Run) waitTimers() bool {
+	if r.TimedWaits >= 40 {
+		// a run that is still sleeping on timers after forty of them is not going anywhere (a healthy
+		// timed run needs a handful): stop, the caller sees "not terminal"
+		return false
+	}
 	var nearest time.Time
 	found := false
 	for _, c := range r.W.Ctrls {
@@ -450,7 +504,7 @@ func (r *Run) checkTriggers() {
 // game. (A revert that arrives before any pod was updated is handled by the controller as one more release - of the old
 // revision - which asks for approvals like any other.)
 func (r *Run) approving() bool {
-	return r.mode != "deleted" && r.mode != "disabled" && r.mode != "bg-superseded"
+	return r.mode != "deleted" && r.mode != "disabled" && r.mode != "bg-superseded" && r.mode != "workload-deleted"
 }
 
 func (r *Run) doUser(a string) {
@@ -466,6 +520,10 @@ func (r *Run) doUser(a string) {
 	name, arg := a, ""
 	if i := strings.Index(a, ":"); i > 0 {
 		name, arg = a[:i], a[i+1:]
+	}
+	switch name {
+	case "delete", "disable", "rollback", "v3", "delete-workload", "delete-tr":
+		r.exitSeen = true
 	}
 	var err error
 	switch name {
@@ -554,6 +612,16 @@ func (r *Run) doUser(a string) {
 		r.ridSeq++
 		body := fmt.Sprintf(`{"metadata":{"labels":{"rollouts.kruise.io/rollout-id":"rid-%s-%d"}}}`, strings.TrimPrefix(r.target, "v"), r.ridSeq)
 		err = user.Patch(c, obj, client.RawPatch(types.MergePatchType, []byte(body)))
+	case "delete-workload":
+		// the user deletes the workload itself in the middle of the release (its pods and ReplicaSets go with it)
+		obj := s.workloadObject()
+		if err = user.Get(c, types.NamespacedName{Namespace: s.NS, Name: s.Name}, obj); err != nil {
+			break
+		}
+		err = user.Delete(c, obj)
+		if err == nil && r.mode != "deleted" && r.mode != "disabled" {
+			r.mode = "workload-deleted"
+		}
 	case "delete-tr":
 		tr := &v1alpha1.TrafficRouting{}
 		if err = user.Get(c, types.NamespacedName{Namespace: s.NS, Name: s.TRName()}, tr); err == nil {
@@ -641,6 +709,9 @@ func (r *Run) terminalNow() bool {
 		return ro == nil
 	case "disabled":
 		return ro != nil && ro.Status.Phase == v1beta1.RolloutPhaseDisabled
+	case "workload-deleted":
+		// the Rollout resets itself to Initial ("Workload Not Found") and waits for a workload of that name
+		return ro != nil && ro.Status.Phase == v1beta1.RolloutPhaseInitial
 	case "bg-superseded":
 		if ro == nil {
 			return false
